@@ -278,6 +278,9 @@ func (p *probeRun) finish(id int, o outcome, label string) bool {
 	if o.O == "authfail" && o.Z < 0 {
 		o.O = "servfail"
 	}
+	if o.O == "aliasfail" {
+		o.Z = -1
+	}
 	if o.O == "cancel" && rq.born == "wire" {
 		o.O = "deadline" // a wire-born request is detached from the caller's context: nothing to cancel from here
 	}
@@ -349,7 +352,7 @@ func (p *probeRun) finish(id int, o outcome, label string) bool {
 	rq.rp.wire = rq.born == "wire"
 	p.afterRequest(k, o, rq.rp, 1, false, before, rs)
 	resName := o.O
-	if resName != "useful" && resName != "servfail" && resName != "authfail" {
+	if resName != "useful" && !sharedFailure(resName) {
 		resName = "local"
 	}
 	{
